@@ -1,5 +1,7 @@
 """Exact moments of source programs under the reference semantics Sem.run, evaluated inside
-Coq (vm_compute) — the oracle independent of Polar."""
+Coq (vm_compute) — the oracle independent of Polar.  For speed the distribution is compacted
+after every iteration (Search.run_c: states equal on all program variables are merged); the
+compacted computation is cross-checked against the plain Sem.run for n <= 2 in the same run."""
 import re
 from fractions import Fraction
 
@@ -7,14 +9,14 @@ import lib
 import progast
 
 
-def moments_file(cases):
-    """cases: list of (prog, [mono dicts], N).  One definition per case."""
-    body = progast.COQ_HEADER
-    body += ("Definition moments (p : prog) (ms : list mono) (N : nat) : list (list (Z * positive)) :=\n"
-             "  map (fun n => let d := run no_law p n st0 in map (fun m => qpair (E d (eval_mono m))) ms) (seq 0 (S N)).\n")
-    for i, (p, ms, N) in enumerate(cases):
-        body += f"Definition p{i} : prog := {progast.prog_coq(p)}.\n"
-        body += f"Eval vm_compute in (moments p{i} {progast.lst([progast.mono_coq(m) for m in ms])} {N}).\n"
+def moments_file(p, ms, N, cross=2):
+    body = progast.COQ_HEADER.replace("Syntax Sem", "Syntax Sem Types Search")
+    vs = progast.prog_vars(p)
+    body += f"Definition p0 : prog := {progast.prog_coq(p)}.\n"
+    body += f"Definition ms0 : list mono := {progast.lst([progast.mono_coq(m) for m in ms])}.\n"
+    vl = progast.lst(['"%s"' % v for v in vs])
+    body += f"Eval vm_compute in (src_moments_c {vl} p0 ms0 {N}).\n"
+    body += f"Eval vm_compute in (src_moments p0 ms0 {min(cross, N)}).\n"
     return body
 
 
@@ -42,18 +44,18 @@ def parse_results(out):
     return res
 
 
-def exact_moments(ctx, cases, per_file=8, timeout=600):
-    files = []
-    for j in range(0, len(cases), per_file):
-        files.append((f"oracle_{j // per_file}", moments_file(cases[j:j + per_file])))
+def exact_moments(ctx, cases, per_file=1, timeout=300):
+    """cases: list of (prog, [mono dicts], N) -> list of (rows | None); rows[n][i] = E[m_i] after n iterations"""
+    files = [(f"oracle_{j}", moments_file(p, ms, N)) for j, (p, ms, N) in enumerate(cases)]
     outs = lib.coq_run_many(ctx, files, timeout=timeout)
     results = []
-    for j in range(0, len(cases), per_file):
-        ok, o = outs[f"oracle_{j // per_file}"]
-        chunk = cases[j:j + per_file]
+    for j, (p, ms, N) in enumerate(cases):
+        ok, o = outs[f"oracle_{j}"]
         rs = parse_results(o) if ok else []
-        if len(rs) != len(chunk):
-            results += [None] * len(chunk)
-        else:
-            results += rs
+        if len(rs) != 2 or len(rs[0]) != N + 1 or any(len(r) != len(ms) for r in rs[0]):
+            results.append(None)
+            continue
+        if rs[0][:len(rs[1])] != rs[1]:
+            raise RuntimeError("oracle self-check failed: compacted and plain semantics disagree on\n" + progast.prog_text(p))
+        results.append(rs[0])
     return results
